@@ -120,51 +120,48 @@ fn apply(cat: &mut Cat, op: &Op) -> Result<Option<RefEntry>, String> {
 /// Returns (key, number of nodes).
 fn concrete_state(cat: &Cat) -> Result<(String, usize), String> {
     let text = format!("{cat:?}");
-    let dv = dbg::parse(&text)?;
-    let roots = dv.field("roots_by_class").ok_or("no roots_by_class in Debug output")?;
+    let prefix = "HashMapTreeCatalog { roots_by_class: {";
+    if !text.starts_with(prefix) {
+        return Err(format!("unexpected Debug output: {}", &text[..text.len().min(60)]));
+    }
+    let mut p = prefix.len();
     let mut classes: Vec<String> = Vec::new();
     let mut n_nodes = 0;
-    for (k, root) in &roots.items {
-        let k = k.as_ref().ok_or("roots_by_class item without key")?;
-        let mut nodes = Vec::new();
-        dbg::walk_nodes(root, None, &mut nodes)?;
+    let mut nodes: Vec<dbg::RawNode> = Vec::new();
+    loop {
+        if text[p..].starts_with('}') {
+            break;
+        }
+        let colon = text[p..].find(": ").ok_or("roots_by_class item without key")?;
+        let class = &text[p..p + colon];
+        nodes.clear();
+        p = dbg::scan_node(&text, p + colon + 2, None, &mut nodes)?;
+        if text[p..].starts_with(", ") {
+            p += 2;
+        }
         n_nodes += nodes.len();
-        let mut items: Vec<String> = nodes
-            .iter()
-            .map(|n| {
-                let data = if n.data.head == "None" && n.data.kind == 0 {
-                    "-".to_string()
-                } else {
-                    entry_summary(n.data)
-                };
-                format!("{}>{}={}", n.key.unwrap_or("^"), n.name, data)
-            })
-            .collect();
-        items.sort();
-        classes.push(format!("{}:[{}]", k.head, items.join(";")));
+        // Sort the nodes (hash-map order is arbitrary) by name, then label.
+        nodes.sort_by(|x, y| (x.1, x.0).cmp(&(y.1, y.0)));
+        let mut line = String::with_capacity(64 + nodes.len() * 48);
+        line.push_str(class);
+        line.push_str(":[");
+        for (key, name, data) in &nodes {
+            line.push_str(key.unwrap_or("^"));
+            line.push('>');
+            line.push_str(name);
+            line.push('=');
+            // The entry verbatim (a Loaded entry shows its whole, empty, zone).
+            line.push_str(if *data == "None" { "-" } else { data });
+            line.push(';');
+        }
+        line.push(']');
+        classes.push(line);
+    }
+    if &text[p..] != "} }" {
+        return Err(format!("unexpected tail of Debug output: {}", &text[p..]));
     }
     classes.sort();
     Ok((classes.join("|"), n_nodes))
-}
-
-/// `Some(Loaded(HashMapTreeZone {..}, tag))` -> `Loaded(<apex name>,<class>,<tag>)`
-/// (the zone behind the Arc is immutable and was created empty by the
-/// harness; anything unexpected is kept verbatim). Placeholders verbatim.
-fn entry_summary(data: &dbg::Dv) -> String {
-    if data.head == "Some" && data.items.len() == 1 {
-        let e = &data.items[0].1;
-        if e.head == "Loaded" && e.items.len() == 2 {
-            let z = &e.items[0].1;
-            let name = z.field("apex").and_then(|a| a.field("name")).map(|n| n.head);
-            let class = z.field("class").map(|c| c.head);
-            let empty = z.field("apex").and_then(|a| a.field("children")).map(|c| c.items.is_empty()).unwrap_or(false);
-            if let (Some(n), Some(c), true) = (name, class, empty) {
-                return format!("Loaded({n},{c},{})", e.items[1].1.canon());
-            }
-        }
-        return e.canon();
-    }
-    data.canon()
 }
 
 // ------------------------------------------------------------------ universe
